@@ -13,6 +13,8 @@ import re
 from common import Driver, Violation, make_request
 
 PIPE_BUF = 4096
+EMITS = ("emit", "emiterr", "killed")     # stream directions fed by a child actor
+CHILD = ("cat",) + EMITS
 
 
 class C16(Driver):
@@ -59,17 +61,22 @@ class C16(Driver):
             return r.randint(cap, 40 * cap)
 
         for s in range(nsd):
-            kind = r.choice(["pipe", "pipe", "unix", "cat", "emit"]) if mode == "single" else r.choice(["pipe", "unix"])
+            kind = r.choice(["pipe", "pipe", "unix", "unix", "cat", "emit", "emiterr", "killed"]) if mode == "single" else r.choice(["pipe", "unix"])
             sd = {"id": s, "kind": kind, "w": 10 + s}
-            if kind == "emit":
+            if kind in EMITS:
                 sd["emit"] = size() + r.choice([0, 1, 5000])
                 sd["exit"] = r.choice([0, 0, 1, 3, 255])
                 sd["sig"] = r.choice([0, 0, 0, 9, 15])
-                nchild = sum(1 for x in sds if x["kind"] in ("cat", "emit"))
-                sd["w"] = 1000 + 4 * nchild + 1   # actor index = spawn order among children, fd 1
+                if kind == "killed":
+                    # the child writes, then sleeps "forever"; another fiber kills it at a seeded instant
+                    sd["sig"] = r.choice([9, 9, 15, 2])
+                    sd["kill_ms"] = r.choice([0, 1, 3, 10])
+                    sd["emit"] = min(sd["emit"], 3 * cap)
+                nchild = sum(1 for x in sds if x["kind"] in CHILD)
+                sd["w"] = 1000 + 4 * nchild + (2 if kind == "emiterr" else 1)   # actor index = spawn order, fd 1 or 2
             sds.append(sd)
             # writer task(s)
-            if kind != "emit":
+            if kind not in EMITS:
                 nw = 1 if mode != "multi_w" else r.randint(2, 4)
                 for wi in range(nw):
                     steps = []
@@ -91,7 +98,7 @@ class C16(Driver):
             nr = 1 if mode != "multi_r" else r.randint(2, 3)
             for ri in range(nr):
                 steps = []
-                if mode == "multi_w" or kind in ("cat", "emit"):
+                if mode == "multi_w" or kind in CHILD:
                     if r.random() < 0.5:
                         steps.append({"op": "sleep", "ms": r.choice([0, 1, 3])})
                     if mode != "multi_w":
@@ -116,8 +123,11 @@ class C16(Driver):
                         steps.append({"op": "close"})
                 tasks.append({"id": tid, "role": "r", "sd": s, "steps": steps})
                 tid += 1
-            if kind in ("cat", "emit"):
+            if kind in CHILD:
                 tasks.append({"id": tid, "role": "x", "sd": s, "steps": []})
+                tid += 1
+            if kind == "killed":
+                tasks.append({"id": tid, "role": "k", "sd": s, "steps": []})
                 tid += 1
         flavour = "asan" if r.random() < 0.15 else "plain"
         return {"property": "C16", "knobs": knobs, "mode": mode, "sds": sds, "tasks": tasks, "flavour": flavour}
@@ -152,6 +162,13 @@ class C16(Driver):
                 A("    (put H [:w %d] c) (put H [:r %d] a))" % (s, s))
             elif sd["kind"] == "cat":
                 A("  (let [p (os/spawn [\"sim-child\" \"C\"] :p {:in :pipe :out :pipe})] (put H [:p %d] p) (put H [:w %d] (p :in)) (put H [:r %d] (p :out)))" % (s, s, s))
+            elif sd["kind"] == "killed":
+                A("  (let [p (os/spawn [\"sim-child\" \"w%d\" \"s100000\"] :p {:out :pipe})] (put H [:p %d] p) (put H [:r %d] (p :out)))"
+                  % (sd["emit"], s, s))
+            elif sd["kind"] == "emiterr":
+                tail = "k%d" % sd["sig"] if sd["sig"] else "x%d" % sd["exit"]
+                A("  (let [p (os/spawn [\"sim-child\" \"e%d\" \"%s\"] :p {:err :pipe})] (put H [:p %d] p) (put H [:r %d] (p :err)))"
+                  % (sd["emit"], tail, s, s))
             else:
                 tail = "k%d" % sd["sig"] if sd["sig"] else "x%d" % sd["exit"]
                 A("  (let [p (os/spawn [\"sim-child\" \"w%d\" \"%s\"] :p {:out :pipe})] (put H [:p %d] p) (put H [:r %d] (p :out)))"
@@ -219,6 +236,12 @@ class C16(Driver):
                     else:
                         A("  (try (let [b %s] (if b (do (sim/ev :ret %d %d :data (length b) (= (sim/match %d off b) (length b))) (+= off (length b))) (sim/ev :ret %d %d :nil))) ([e] (sim/ev :ret %d %d :err e)))"
                           % (call, T, k, W, T, k, T, k))
+            elif t["role"] == "k":
+                sd = plan["sds"][s]
+                signame = {9: ":kill", 15: ":term", 2: ":int"}[sd["sig"]]
+                A("  (ev/sleep %s)" % (sd["kill_ms"] / 1000.0))
+                A("  (sim/ev :inv %d 0)" % T)
+                A("  (try (do (os/proc-kill (H [:p %d]) false %s) (sim/ev :ret %d 0 :killed)) ([e] (sim/ev :ret %d 0 :err e)))" % (s, signame, T, T))
             else:
                 A("  (sim/ev :inv %d 0)" % T)
                 A("  (try (sim/ev :ret %d 0 :exit (os/proc-wait (H [:p %d]))) ([e] (sim/ev :ret %d 0 :err e)))" % (T, s, T))
@@ -282,9 +305,11 @@ class C16(Driver):
                 c = ret.get((t["id"], 900))
                 if c is not None:
                     w_closed_seq = c[0]
-            if kind == "emit":
+            if kind in EMITS:
                 lower = upper = sd["emit"]
-                w_closed_seq = -1  # the child closes its end when it exits
+                if kind == "killed":
+                    lower = 0       # the kill may land while the child is still writing: any prefix is legitimate
+                w_closed_seq = -1  # the child closes its end when it exits (or is killed)
             r_closed_seq = None
             consumed = 0
             pend_r = []
@@ -469,10 +494,10 @@ class C16(Driver):
                 expect = None
                 if kind == "cat":
                     expect = 0
-                elif kind == "emit":
+                elif kind in EMITS:
                     expect = 128 + sd["sig"] if sd["sig"] else sd["exit"]
                 if r_ is None:
-                    if drained and (kind == "emit" or w_closed_seq is not None):
+                    if drained and (kind in EMITS or w_closed_seq is not None):
                         V("C16/child/proc-wait-never-returned/kind=%s" % kind, "the child has exited (its output reached end of stream)")
                 elif r_[1][0] == ":exit":
                     got = int(r_[1][1])
